@@ -218,7 +218,7 @@ CHECKS = {
                     "the controller designated by one of the metadata responses the transport can have been using (from the response matched by a cache probe taken right before the call up to the last one that reached a broker before the request did), "
                     "every group / transaction request at a broker named by a FindCoordinator answer for that key and key space (or the true coordinator); (3) when the cache equals the cluster layout at the start of a call the request really reaches the designated broker; "
                     "(4) after a change the cache shows the new layout within 10xTTL+2 s (later than TTL+300 ms = inconclusive) and from then on requests go to the new leader; "
-                    "(5) the cache content is always one of the responses the brokers gave, moving forward only, and Client.Metadata(topics) equals the topic-filtered content (brokers, controller, partitions with leader/replicas/isr, UNKNOWN_TOPIC_OR_PARTITION marks, request order) of such a response. TestCadence takes the time clause literally with a MetadataTTL of 2-3 s: the leader of a partition moves right after the brokers answered a metadata request of the transport, and a ListOffsets request started TTL + 500 ms later has to reach the new leader first (idle transport, or with traffic for other partitions). Produce steps are also sent as rawproduce.Request (the routing method of Client.RawProduce)."),
+                    "(5) the cache content is always one of the responses the brokers gave, moving forward only, and Client.Metadata(topics) equals the topic-filtered content (brokers, controller, partitions with leader/replicas/isr, UNKNOWN_TOPIC_OR_PARTITION marks, request order) of such a response. TestCadence takes the time clause literally with a MetadataTTL of 2-3 s: the leader of a partition moves right after the brokers answered a metadata request of the transport, and a ListOffsets request started TTL + 500 ms later has to reach the new leader first (idle transport, or with traffic for other partitions)."),
         level_note=("schedules of the background refresh are sampled, not enumerated; stale routing before the next refresh (NOT_LEADER answers) is accepted as the statement allows; metadata v0 and FindCoordinator v0 are never negotiated "
                     "(no controller id / no key type at those versions); request encodings themselves belong to C04 (malformed requests are only counted here); the fake answers transaction APIs with default bodies"),
         rule=("case = (brokers with racks and version tables, bootstrap list, controller, topics with leaders, coordinators, auto-create setting, TTL, step history); every 2nd case is built from one of 6 strata "
